@@ -3,8 +3,11 @@
 # (a seed whose meta.json has check_with is run against that property's check: its change breaks the clause another listed property owns)
 # prints one line per seed; every line must say rc=1 (seeds made for a tree before a later fix rewrote the same lines, and the one
 # seed that a fix neutralised, are listed as n/a with the reason from their meta.json).
+export VERIF_FAST_FAIL=1     # only "exit 1 or not" matters here: stop at the first failing case (vf/core.py)
 for d in /verif/seeded/${1:-*}; do
   n=$(basename $d)
+  # several instances can share the work: with SR_LOCK=<dir> a seed is taken by whoever creates its lock directory first
+  if [ -n "$SR_LOCK" ]; then mkdir "$SR_LOCK/$n" 2>/dev/null || continue; fi
   na=$(python3 -c "
 import json;m=json.load(open('$d/meta.json'))
 print(m.get('applies_to') or ('not a valid seed on the current tree' if m.get('valid_seed') is False else ''))")
